@@ -105,6 +105,24 @@ Theorem C13_safe_truth_value_refuted :
 Proof. exact safe_truth_value_refuted. Qed.
 Print Assumptions C13_safe_truth_value_refuted.
 
+(* refutation: py__getitem__all_values (the non-literal-index route of obj[...]) iterates over
+   instances of SUBCLASSES of list/tuple/dict, running their Python-level __iter__ *)
+Theorem C13_safe_getitem_all_values_refuted :
+  exists h o a,
+    In a (getitem_all_values h o) /\
+    allowed_getitem_type h (access_target a) = false /\
+    user_hook h (type_of h (access_target a)) s_iter = true.
+Proof. exact safe_getitem_all_values_refuted. Qed.
+Print Assumptions C13_safe_getitem_all_values_refuted.
+
+(* ... while on exact list/tuple/dict objects it stays within the allowed container types *)
+Theorem C13_getitem_all_values_exact :
+  forall h o a,
+    kind_in (kind_of h (type_of h o)) [KDict; KList; KTuple] = true ->
+    In a (getitem_all_values h o) -> allowed_getitem_type h (access_target a) = true.
+Proof. exact getitem_all_values_exact. Qed.
+Print Assumptions C13_getitem_all_values_exact.
+
 (* T3: values() hands out exactly one name per dir() entry, in order *)
 Theorem C13_values_cover_dir :
   forall h o dirs allow_unsafe is_instance annot_values,
